@@ -72,6 +72,17 @@ class C13(core.Check):
         cs.append(("resp", False, ch[:61], (52,), True, "cf"))        # stream stops exactly after a chunk
         cs.append(("resp", False, ch[:57], (52,), True, "cf"))
         cs.append(("resp", False, r1, (30, 60), True, "cf"))
+        q1 = b"POST /a HTTP/1.1\r\nTransfer-Encoding: chunked\r\n\r\n4\r\naaaa\r\n3\r\nbbb\r\n0\r\n\r\n"
+        q2 = b"PUT /b HTTP/1.1\r\nContent-Length: 5\r\n\r\nBBBBB"
+        p1 = b"HTTP/1.1 200 OK\r\nTransfer-Encoding: chunked\r\n\r\n4\r\naaaa\r\n3\r\nbbb\r\n0\r\n\r\n"
+        p2 = b"HTTP/1.0 201 C\r\n\r\nBBBBB"
+        for side, a, b in (("req", q1, q2), ("resp", p1, p2)):
+            for route in ("makeParser-new", "reinit-new", "same-cleared", "makeParser-same"):
+                for pre in (0, 3, len(b)):
+                    cs.append(("rebind", side, (("first", 0, a, (30,)), (route, pre, b, (10,)), (route, 0, a, ()))))
+            for order in ((0, 1, 0, 1, 0, 1, 0, 1), (1, 0, 0, 1, 1, 0), (0, 0, 1, 1, 0, 1)):
+                cs.append(("inter", side, ((a, (45, 52, 57)), (b, (22,)) if side == "req" else (b, (18, 21))), order))
+                cs.append(("inter", side, ((a, (45, 52)), (a.replace(b"a", b"x").replace(b"xxxx", b"yyyy", 1) if False else a, (50, 55)), (b, (20,))), order + (2, 2)))
         for d in (b"HTTP/1.1 200 OK\r\nContent-Length: 2\r\n\r\nhi", b"HTTP/1.0 200 OK\r\n\r\nclose delimited",
                   b"HTTP/1.1 200 OK\r\nTransfer-Encoding: chunked\r\n\r\n2\r\nhi\r\n0\r\n\r\n", b"HTTP/1.1 204 N\r\n\r\n", b"", b"HTTP/1.1 200 OK\r\nContent-Length: 5\r\n\r\nhi"):
             for cutset in ((), (5,), (len(d) - 1,) if len(d) > 1 else ()):
@@ -109,6 +120,26 @@ class C13(core.Check):
                 data = hp.mutate_bytes(rng, data)
             for _ in range(rng.choice([1, 2, 3])):
                 cuts = hp.cuts_for(rng, data)
+                if rng.random() < 0.07:      # one parser object re-used and re-bound between messages
+                    steps = []
+                    for j in range(rng.choice([2, 3, 4])):
+                        d = hp.gen_request(rng) if side == "req" else hp.gen_response(rng)[0]
+                        route = "first" if j == 0 else rng.choice(["makeParser-new", "reinit-new", "same-cleared", "makeParser-same"])
+                        pre = rng.choice([0, 0, 0, 1, 5, len(d) // 2, len(d)])
+                        steps.append((route, pre, d, hp.cuts_for(rng, d, rng.choice(["none", "two", "uniform", "term"]))))
+                    yield ("rebind", side, tuple(steps))
+                    made += 1
+                    continue
+                if rng.random() < 0.08:      # independent parser instances, their reads interleaved
+                    ps = []
+                    for _ in range(rng.choice([2, 2, 3])):
+                        d = hp.gen_request(rng) if side == "req" else hp.gen_response(rng)[0]
+                        ps.append((d, hp.cuts_for(rng, d, rng.choice(["two", "uniform", "term", "ones"] if len(d) < 160 else ["two", "uniform", "term"]))))
+                    total = sum(len(c) + 1 for _, c in ps)
+                    order = tuple(rng.randrange(len(ps)) for _ in range(total * 2))
+                    yield ("inter", side, tuple(ps), order)
+                    made += 1
+                    continue
                 if side == "req":
                     yield ("req", data, cuts, None)
                 elif rng.random() < 0.15:        # the same through Client.service, end of stream with or after the last read
@@ -153,6 +184,31 @@ class C13(core.Check):
     def oracle(self, case, obs):
         bad = []
         cut, whole = obs
+        if case[0] == "rebind":
+            # a re-used, re-bound parser gives for every message what a fresh parser gives (attributes that are documented
+            # to survive — trailers / chunk parameters of the previous message, last event id, retry — are not compared)
+            skip = (6, 7) if case[1] == "req" else (6, 7, 12, 13)
+            for (res, ended, esc), (fres, fended, fesc) in zip(cut, whole):
+                if esc is not None or fesc is not None:
+                    bad.append("exception-escaped-parser")
+                    break
+                if ended != fended:
+                    bad.append("rebound-parser-did-not-see-message")
+                    break
+                a = None if res is None else tuple(x for i, x in enumerate(res) if res[0] != "ok" or i not in skip)
+                b = None if fres is None else tuple(x for i, x in enumerate(fres) if fres[0] != "ok" or i not in skip)
+                if a != b:
+                    bad.append("rebound-parser-differs-from-fresh")
+                    break
+            if len(cut) != len(whole) and not bad:
+                bad.append("rebound-parser-did-not-see-message")
+            return bad
+        if case[0] == "inter":
+            if hp.has_escape(obs):
+                bad.append("exception-escaped-parser")
+            elif list(cut) != list(whole):
+                bad.append("interleaved-parsers-differ-from-alone")
+            return bad
         if case[0] == "clid":
             # Client.service: what is delivered through .responses does not depend on the delivery schedule
             if cut[0] is not None or whole[0] is not None:
@@ -177,12 +233,18 @@ class C13(core.Check):
 
     @hp.safe(True)
     def nontrivial(self, case, obs):
+        if case[0] in ("rebind", "inter"):
+            return True
         if case[0] == "clid":
             return len(case[1]) > 0
         return len(hp.case_cuts(case) or ()) >= 1 and len(obs[0][0]) >= 1
 
     @hp.safe(list)
     def features(self, case, obs):
+        if case[0] == "rebind":
+            return ["rebind:" + case[1]] + ["rebind:" + st[0] + (":empty" if st[1] == 0 else ":prefilled") for st in case[2][1:]]
+        if case[0] == "inter":
+            return ["inter:" + case[1], f"inter:parsers:{len(case[2])}"]
         if case[0] == "clid":
             return ["clid", "clid:eof-same-pass" if case[3] else "clid:eof-next-pass", f"clid:responses:{len(obs[0][1])}"]
         f = [case[0]]
@@ -205,6 +267,8 @@ class C13(core.Check):
 
     @hp.safe(list)
     def mutate(self, rng, case):
+        if case[0] in ("rebind", "inter"):
+            return list(hp.shrink_case(case))[:30]
         out = []
         d = hp.case_data(case)
         for st in ("ones", "term", "uniform", "two", "tail"):
